@@ -253,6 +253,10 @@ func c03Dependents(c *core.Ctx, r *core.Report) {
 		if _, isAlloc := core.Norm(st.Addr.X).(*ssa.Alloc); isAlloc {
 			continue
 		}
+		// ... also when the shell comes from a constructor (every return of which hands out what it has just made)
+		if freshlyMade(c, st.Addr.X, 0) {
+			continue
+		}
 		r.Fail("C03.R8", cons, c.Pos(st.Instr.Pos()), "Meta.Dependent is written outside dependOn: the stale-version check could miss a holder")
 	}
 	// by interpretation, whatever the recorder and the reader are split into: a holder is recorded at its first sight
@@ -409,4 +413,34 @@ func layoutArgsOrdered(fn *ssa.Function, T *types.Named, first, second absint.Va
 		return nil
 	}
 	return args
+}
+
+// freshlyMade: v is an allocation of the function it is in, or the result of an in-scope function every return of
+// which hands out such a value.
+func freshlyMade(c *core.Ctx, v ssa.Value, depth int) bool {
+	if depth > 3 {
+		return false
+	}
+	switch x := core.Norm(v).(type) {
+	case *ssa.Alloc:
+		return true
+	case *ssa.Call:
+		cal := x.Common().StaticCallee()
+		if cal == nil || !c.InScope(cal) || cal.Blocks == nil || cal.Signature.Results().Len() != 1 {
+			return false
+		}
+		n := 0
+		for _, b := range cal.Blocks {
+			for _, in := range b.Instrs {
+				if ret, ok := in.(*ssa.Return); ok {
+					n++
+					if !freshlyMade(c, ret.Results[0], depth+1) {
+						return false
+					}
+				}
+			}
+		}
+		return n > 0
+	}
+	return false
 }
